@@ -138,8 +138,17 @@ def triage_exception(exc):
             where = f'{os.path.relpath(fn, REPO)}:{fr.name}'
             break
         if fn.startswith(os.path.join(VERIF, 'vf') + os.sep):
-            origin = 'harness'
-            where = f'{os.path.relpath(fn, VERIF)}:{fr.name}:{fr.lineno}'
+            # a harness frame is innermost.  If the library sits between it and the body (the frame is a callback -- an integrand,
+            # a predicate -- that the library called with its own arrays), the arguments came from the library: a library failure
+            # observed in the callback.  (Checks are quiet on the unchanged tree, so a bug of the callback itself shows up there
+            # as a report to be fixed either way.)
+            lib = [g for g in tb[:tb.index(fr)] if os.path.realpath(g.filename).startswith(REPO + os.sep)]
+            if lib:
+                origin = 'library'
+                where = f'{os.path.relpath(os.path.realpath(lib[-1].filename), REPO)}:{lib[-1].name}(callback)'
+            else:
+                origin = 'harness'
+                where = f'{os.path.relpath(fn, VERIF)}:{fr.name}:{fr.lineno}'
             break
     return origin, where, ''.join(traceback.format_exception(type(exc), exc, exc.__traceback__))[-1800:]
 
